@@ -143,5 +143,10 @@ class SegmentEnd:
       return False
     return (self.name == other.name) and (self.end_type == other.end_type)
 
+  def __hash__(self):
+    # consistent with __eq__, which compares the segment name and the end type
+    # (also with the string representation)
+    return hash(str(self))
+
   def __getattr__(self, name):
     return getattr(self.__segment, name)
